@@ -1929,6 +1929,16 @@ def py_builtin(interp: Any, name: str, args: list[V], kwargs: dict[str, V], st: 
                     break
                 if d:
                     best = x
+            if not okk and len(items) == 2:
+                # two symbolic integers: fork on their order (each path records its assumption)
+                a, b = items
+                for first, op_ in ((a, "<="), (b, ">")):
+                    s2 = st.copy()
+                    if s2.assume(("cmp", a.d - b.d, op_)):  # type: ignore[union-attr]
+                        s2.assumed.append(f"{name}: {a.d!r} {op_} {b.d!r}")  # type: ignore[union-attr]
+                        pick = first if name == "min" else (b if first is a else a)
+                        yield pick, s2
+                return
             yield (best if okk else unk(name + " undecidable")), st
         else:
             yield unk(name), st
